@@ -297,15 +297,15 @@ type Engine struct {
 	Log      *Log
 	Gate     Gate
 
-	mu       sync.Mutex
-	count    int  // visible-effect operations performed on this handle
-	crashAt  int  // crash when count reaches this (1-based); 0 = never
-	partial  bool // the crashing write is applied to its first half
-	crashed  bool
-	faultGet map[int]bool // k-th Get fails (1-based)
-	gets     int
-	faultRead int // the k-th Read call on any Get reader fails (1-based), 0 = never
-	reads    int
+	mu         sync.Mutex
+	count      int  // visible-effect operations performed on this handle
+	crashAt    int  // crash when count reaches this (1-based); 0 = never
+	partial    bool // the crashing write is applied to its first half
+	crashed    bool
+	faultGet   map[int]bool // k-th Get fails (1-based)
+	gets       int
+	faultRead  int // the k-th Read call on any Get reader fails (1-based), 0 = never
+	reads      int
 	faultClass string // restrict read faults to this path class
 }
 
